@@ -120,6 +120,53 @@ def dummy_args(fn):
     return args
 
 
+def arg_variants(fn):
+    """Keyword-argument variations of a public member, one parameter at a time: every value of every
+    enum-typed parameter (required or optional), both values of bool parameters, a non-default number.
+    The first variant is {} (defaults / dummy_args)."""
+    from enum import Enum
+    out = [{}]
+    sig = inspect.signature(fn)
+    for i, (n, p) in enumerate(sig.parameters.items()):
+        if (i == 0 and n == "self") or p.kind in (p.VAR_POSITIONAL, p.VAR_KEYWORD, p.POSITIONAL_ONLY):
+            continue
+        a = p.annotation
+        d = p.default
+        if isinstance(d, Enum):
+            vals = [v for v in type(d) if v != d]
+        elif inspect.isclass(a) and issubclass(a, Enum):
+            vals = list(a)[1:] if d is p.empty else [v for v in a if v != d]
+        elif isinstance(d, bool):
+            vals = [not d]
+        elif isinstance(d, (int, float)) and d is not None:
+            vals = [type(d)(d + 10)]
+        else:
+            continue
+        out += [{n: v} for v in vals]
+    return out
+
+
+def show_kwargs(kw):
+    return {k: (v.name if hasattr(v, "name") else v) for k, v in kw.items()}
+
+
+def load_kwargs(fn, kw):
+    """Inverse of show_kwargs for a replay."""
+    from enum import Enum
+    sig = inspect.signature(fn)
+    out = {}
+    for k, v in (kw or {}).items():
+        p = sig.parameters.get(k)
+        cls = None
+        if p is not None:
+            if isinstance(p.default, Enum):
+                cls = type(p.default)
+            elif inspect.isclass(p.annotation) and issubclass(p.annotation, Enum):
+                cls = p.annotation
+        out[k] = getattr(cls, v) if cls and isinstance(v, str) else v
+    return out
+
+
 # ----------------------------------------------------------------------- stubs
 
 def _mk_member(name, kind):
@@ -196,12 +243,12 @@ def make_features(states, log=None, proto=None, falsy=False):
     return _F()
 
 
-def stub_setup(proto, interfaces, features=()):
+def stub_setup(proto, interfaces, features=(), connects=True):
     from pyatv.core import SetupData
     from pyatv.const import FeatureName
 
     async def _connect():
-        return True
+        return connects
 
     return SetupData(P(proto), _connect, lambda: set(), lambda: {},
                      {iface_cls(k): v for k, v in interfaces.items()},
@@ -221,15 +268,24 @@ async def build_facade(setups):
     return atv
 
 
-async def invoke(obj, name, kind, base):
-    """Call one public member; returns exception class name or None."""
+async def invoke(obj, name, kind, base, kwargs=None):
+    """Call one public member (kwargs override/extend the placeholder arguments); returns exception class
+    name or None."""
     try:
         if kind == "prop":
             getattr(obj, name)
         else:
             fn = getattr(obj, name)
+            sig = inspect.signature(getattr(base, name))
             args = dummy_args(getattr(base, name))
-            r = fn(*args)
+            kw = dict(kwargs or {})
+            # a required parameter given by keyword replaces its positional placeholder
+            req = [n for i, (n, p) in enumerate(sig.parameters.items())
+                   if not (i == 0 and n == "self") and p.default is p.empty and p.kind not in (p.VAR_KEYWORD,)]
+            for k in list(kw):
+                if k in req and req.index(k) < len(args):
+                    args[req.index(k)] = kw.pop(k)
+            r = fn(*args, **kw)
             if inspect.isawaitable(r):
                 await r
         return None
@@ -601,33 +657,52 @@ def real_table(t):
 FSTATES = ["Available", "Unavailable", "Unknown", "Unsupported"]
 
 
-async def facade_for(tab, subset, log, feat_sets, feat_states):
+async def facade_for(tab, subset, log, feat_sets, feat_states, conn=None):
+    """subset: protocols in the order their SetupData is added (a protocol may occur twice);
+    conn[k]: what connect() of the k-th SetupData returns (default True).
+    Returns (device object, [(proto, connect result, {iface: stub})] per position)."""
     from pyatv.const import FeatureState
     setups = []
-    stubs = {}
-    for p in subset:
+    units = []
+    for k, p in enumerate(subset):
+        ok = True if conn is None else bool(conn[k])
         ifs = {}
         for i, d in tab[p].items():
             ifs[i] = make_stub(i, p, d["ov"], log, d["style"])
-        stubs[p] = dict(ifs)
+        units.append((p, ok, dict(ifs)))
         if feat_sets.get(p) is not None:
-            ifs["Features"] = make_features({k: getattr(FeatureState, v) for k, v in feat_states[p].items()})
-        setups.append(stub_setup(p, ifs, feat_sets.get(p) or ()))
+            ifs["Features"] = make_features({k_: getattr(FeatureState, v) for k_, v in feat_states[p].items()})
+        setups.append(stub_setup(p, ifs, feat_sets.get(p) or (), ok))
     atv = await build_facade(setups)
-    return atv, stubs
+    return atv, units
 
 
-async def drive_routes(tab, order, rows, feat_sets, feat_states, holders, only=None):
-    """One facade (protocols connected in `order`), every relayed member, every takeover holder in
-    `holders` (None = no takeover).  Yields observation dicts."""
+def set_up_units(units):
+    """Independent bookkeeping of the property text: the SetupData that take part = for each protocol the
+    first one whose connect() returned True."""
+    out, seen = [], set()
+    for p, ok, ifs in units:
+        if p in seen or not ok:
+            continue
+        seen.add(p)
+        out.append((p, ifs))
+    return out
+
+
+async def drive_routes(tab, order, rows, feat_sets, feat_states, holders, only=None, conn=None, variants=True):
+    """One facade (SetupData added in `order`, connect() results `conn`), every relayed member - with every
+    variation of its enum/bool/number arguments - and every takeover holder in `holders` (None = no
+    takeover).  Yields observation dicts."""
     from pyatv.const import FeatureName, FeatureState
     log = []
-    atv, stubs = await facade_for(tab, order, log, feat_sets, feat_states)
+    atv, units = await facade_for(tab, order, log, feat_sets, feat_states, conn)
+    eff = set_up_units(units)
     out = []
     for iface in RELAYED:
         base = iface_cls(iface)
         fac = getattr(atv, IACC[iface])
-        regd = [p for p in order if iface in stubs[p]]
+        regd = [p for p, ifs in eff if iface in ifs]
+        stub = {p: ifs[iface] for p, ifs in eff if iface in ifs}
         for h in holders:
             tok = atv.takeover(P(h), base) if h else None
             take = holder_of(atv, iface)
@@ -635,14 +710,22 @@ async def drive_routes(tab, order, rows, feat_sets, feat_states, holders, only=N
                 if row["iface"] != iface or (only and (iface, row["member"]) not in only):
                     continue
                 gate = atv.features.in_state(FeatureState.Available, FeatureName.PlayUrl)
-                del log[:]
-                exc = await invoke(fac, row["member"], row["mkind"], base)
-                called = [e[0] for e in log]
-                wrong = [e for e in log if e[1] != iface or e[2] != row["member"]]
-                out.append({"row": n, "iface": iface, "member": row["member"], "holder": h, "take": take,
-                            "gate": gate, "regd": regd, "called": called, "exc": exc, "wrong": wrong,
-                            "bits": {p: inst_bits(stubs[p][iface], row["member"]) for p in regd},
-                            "conforming": all(stubs[p][iface]._style == "sub" for p in regd)})
+                kws = [{}]
+                if row["mkind"] != "prop" and variants is True:
+                    kws = arg_variants(getattr(base, row["member"]))
+                elif isinstance(variants, list):
+                    kws = variants
+                for kw in kws:
+                    del log[:]
+                    exc = await invoke(fac, row["member"], row["mkind"], base, kw)
+                    called = [e[0] for e in log]
+                    wrong = [e for e in log if e[1] != iface or e[2] != row["member"]]
+                    out.append({"row": n, "iface": iface, "member": row["member"], "kwargs": show_kwargs(kw), "holder": h,
+                                "take": take, "gate": gate, "regd": regd, "called": called, "exc": exc, "wrong": wrong,
+                                "bits": {p: inst_bits(stub[p], row["member"]) for p in regd},
+                                "added": [(p, ok, inst_bits(ifs[iface], row["member"]) if iface in ifs else None)
+                                          for p, ok, ifs in units],
+                                "conforming": all(ifs[iface]._style == "sub" for _, _, ifs in units if iface in ifs)})
             if tok:
                 tok()
     return out
@@ -650,6 +733,11 @@ async def drive_routes(tab, order, rows, feat_sets, feat_states, holders, only=N
 
 def coq_inst(b):
     return "mkI %s %s %s" % tuple(common.cbool(x) for x in b)
+
+
+def coq_added(added):
+    return "[" + "; ".join("(%s, %s, %s)" % (p, common.cbool(ok), "None" if b is None else "Some (%s)" % coq_inst(b))
+                           for p, ok, b in added) + "]"
 
 
 def coq_reg(bits, regd):
@@ -983,8 +1071,9 @@ HEADER = ("From Coq Require Import List String. Import ListNotations.\n"
           "From PV Require Import Common.Cases C01.Model C01.Gen.\n")
 
 
-def route_replay(tab, order, o, feat_sets, feat_states):
-    return {"kind": "route", "connected_in_order": order, "interface": o["iface"], "member": o["member"],
+def route_replay(tab, order, o, feat_sets, feat_states, conn=None):
+    return {"kind": "route", "connected_in_order": order, "connect_results": conn, "arguments": o.get("kwargs") or {},
+            "interface": o["iface"], "member": o["member"],
             "takeover_holder": o["holder"], "executed_by": o["called"], "exception": o["exc"],
             "play_url_gate": o["gate"],
             "table": {p: {o["iface"]: tab[p][o["iface"]]} for p in order if o["iface"] in tab[p]},
@@ -1009,7 +1098,9 @@ def run(ctx):
     members = t["members"]
     ctx.rule = ("(a) real FacadeAppleTV with recording stubs: override tables = the real one + random ones (densities "
                 "0.1..0.9, some interfaces unregistered, a few falsy / non-subclass instances), all 31 subsets of "
-                "protocols (connect order shuffled), every public member of the 9 interfaces + push updater, takeover "
+                "protocols (connect order shuffled; plus SetupData whose connect() returns False: protocols outside the "
+                "subset, a failing first SetupData of a protocol, duplicates), every public member - called with every value "
+                "of its enum/bool arguments - of the 9 interfaces + push updater, takeover "
                 "holder none + each protocol (quick tier: two random ones for the random tables), random feature sets/states for the play_url gate; (b) bare Relayer "
                 "objects with arbitrary priority lists and explicit priority argument; (c) takeover/release histories "
                 "on the real FacadeAppleTV incl. failing takeovers, unknown keys, duplicate keys, double releases; "
@@ -1035,48 +1126,70 @@ def run(ctx):
         for S in subsets():
             order = list(S)
             rng.shuffle(order)
+            conn = [True] * len(order)
+            # SetupData whose connect() returns False: protocols outside S (they must not take part), and
+            # sometimes a first, failing SetupData of a protocol of S before the one that connects / a second
+            # SetupData of an already set-up protocol (ignored)
+            for q in PROTOS:
+                if q not in S and rng.random() < 0.3:
+                    k = rng.randint(0, len(order))
+                    order.insert(k, q)
+                    conn.insert(k, False)
+            if rng.random() < 0.2:
+                q = rng.choice(S)
+                k = order.index(q)
+                if rng.random() < 0.5:
+                    order.insert(k, q)
+                    conn.insert(k, False)
+                else:
+                    order.append(q)
+                    conn.append(rng.random() < 0.5)
+            ctx.count("setupdata-not-connecting", conn.count(False))
             feat_sets, feat_states = {}, {}
-            for p in order:
+            for p in dict.fromkeys(order):
                 if rng.random() < 0.85:
                     feat_sets[p] = [f["name"] for f in t["features"] if rng.random() < 0.5]
                     if rng.random() < 0.6:
                         feat_sets[p].append("PlayUrl")
                     feat_states[p] = {f: rng.choice(FSTATES) if rng.random() < 0.4 else "Available" for f in set(feat_sets[p])}
             holders = [None] + (PROTOS if (ctx.thorough or tname == "real") else rng.sample(PROTOS, 2))
-            obs = vloop.run(drive_routes, tab, order, rows, feat_sets, feat_states, holders)
+            obs = vloop.run(drive_routes, tab, order, rows, feat_sets, feat_states, holders, None, conn)
             for o in obs:
                 ctx.traces += 1
                 row = rows[o["row"]]
                 impl = {p: (b[0] and b[1] and b[2]) for p, b in o["bits"].items()}
                 if o["wrong"]:
                     ctx.violation("C01:route:other-member-executed", "call of %s.%s executed %s" % (o["iface"], o["member"], o["wrong"]),
-                                  route_replay(tab, order, o, feat_sets, feat_states))
+                                  route_replay(tab, order, o, feat_sets, feat_states, conn))
                 elif o["conforming"]:
                     v = judge_route(row, o["holder"], impl, o["gate"], o["regd"], o["called"], o["exc"])
                     if v:
-                        ctx.violation(v[0], "%s.%s with %s connected, takeover by %s: %s" % (
-                            o["iface"], o["member"], order, o["holder"], v[1]), route_replay(tab, order, o, feat_sets, feat_states))
+                        ctx.violation(v[0], "%s.%s(%s) with SetupData added %s (connect() returned %s), takeover by %s: %s" % (
+                            o["iface"], o["member"], o["kwargs"], order, conn, o["holder"], v[1]), route_replay(tab, order, o, feat_sets, feat_states, conn))
                 cr = coq_callres(o["called"], o["exc"])
                 canon = (o["row"], tuple(o["take"]), o["gate"] if row["kind"] == "KGated" else None,
-                         tuple(o["regd"]), tuple(sorted(o["bits"].items())), cr)
+                         tuple(o["added"]), cr)
                 ctx.case(canon, nontrivial=bool(o["called"]),
-                         sample={"table": tname, "connected": order, "member": o["iface"] + "." + o["member"],
+                         sample={"table": tname, "added": order, "connect_results": conn, "arguments": o["kwargs"],
+                                 "member": o["iface"] + "." + o["member"],
                                  "holder": o["holder"], "executed_by": o["called"], "exception": o["exc"]})
                 ctx.count("table:" + tname)
                 ctx.count("result:" + ("called" if o["called"] else str(o["exc"])))
                 if cr is None:
-                    ctx.tie_broken("correspondence:facade-unexpected-observation", json.dumps(route_replay(tab, order, o, feat_sets, feat_states), default=repr))
+                    ctx.tie_broken("correspondence:facade-unexpected-observation", json.dumps(route_replay(tab, order, o, feat_sets, feat_states, conn), default=repr))
                     continue
                 if canon in seen:
                     continue
                 seen.add(canon)
-                fcases.append("(%d, %s, %s, %s, %s, %s)" % (o["row"], coq_protos(o["take"]), common.cbool(o["gate"]),
-                                                       coq_protos(o["regd"]), coq_reg(o["bits"], o["regd"]), cr))
-                fmeta.append(route_replay(tab, order, o, feat_sets, feat_states))
+                if o["kwargs"]:
+                    ctx.count("calls-with-non-default-arguments")
+                fcases.append("(%d, %s, %s, %s, %s)" % (o["row"], coq_protos(o["take"]), common.cbool(o["gate"]),
+                                                   coq_added(o["added"]), cr))
+                fmeta.append(route_replay(tab, order, o, feat_sets, feat_states, conn))
     ctx.count("facade-cases-distinct", len(fcases))
     ctx.note("facade driven %.1fs" % (time.time() - ctx.t0))
     if not t.get("fallback"):
-        run_cases_in_coq(ctx, "facade", HEADER, "nat * list proto * bool * list proto * list (proto * inst) * callres",
+        run_cases_in_coq(ctx, "facade", HEADER, "nat * list proto * bool * list (proto * bool * option inst) * callres",
                          "check_facade rows relayer_prio", fcases, lambda b: fmeta[b])
     ctx.note("facade compared %.1fs" % (time.time() - ctx.t0))
     # ---------------------------------------------------------------- (b) bare relayer
@@ -1252,14 +1365,17 @@ async def replay_one(r, rows, verbose=True):
     if r.get("kind") == "route":
         order = r["connected_in_order"]
         tab = {p: dict(r["table"].get(p, {})) for p in PROTOS}
+        kw = load_kwargs(getattr(iface_cls(r["interface"]), r["member"]), r.get("arguments")) \
+            if not isinstance(getattr(iface_cls(r["interface"]), r["member"]), property) else {}
         obs = await drive_routes(tab, order, rows, r.get("feature_sets") or {}, r.get("feature_states") or {},
-                                 [r["takeover_holder"]], only={(r["interface"], r["member"])})
+                                 [r["takeover_holder"]], only={(r["interface"], r["member"])},
+                                 conn=r.get("connect_results"), variants=[kw])
         for o in obs:
             row = rows[o["row"]]
             impl = {p: (b[0] and b[1] and b[2]) for p, b in o["bits"].items()}
             if verbose:
-                print("%s.%s connected=%s holder=%s -> executed_by=%s exception=%s" % (
-                    o["iface"], o["member"], order, o["holder"], o["called"], o["exc"]))
+                print("%s.%s(%s) added=%s connect()=%s holder=%s -> executed_by=%s exception=%s" % (
+                    o["iface"], o["member"], o["kwargs"], order, r.get("connect_results"), o["holder"], o["called"], o["exc"]))
             if o["wrong"]:
                 return ("C01:route:other-member-executed", str(o["wrong"]))
             v = judge_route(row, o["holder"], impl, o["gate"], o["regd"], o["called"], o["exc"])
